@@ -44,7 +44,7 @@ class SharedStateScan:
     globals, and for every line that reads or writes one of them."""
 
     def __init__(self, repo: str, subdirs=("xsdata/formats", "xsdata/utils"), extra_attrs=(), only_attrs=None,
-                 extra_lines: dict | None = None):
+                 extra_lines: dict | None = None, global_names=()):
         """only_attrs: if given, scheduling lines are those referencing one of these attribute names
         (the names the dynamic profile saw changing on shared objects) that the static scan also
         classifies as mutated outside __init__; extra_lines: lines added verbatim (dynamic write
@@ -53,6 +53,8 @@ class SharedStateScan:
         self.only_attrs = set(only_attrs) if only_attrs is not None else None
         self.mutable_attrs: set[str] = set(extra_attrs)
         self.mutable_globals: dict[str, set[str]] = {}
+        # names of module-level / class-level containers the dynamic profile saw changing: every function line naming one is a point
+        self.global_names = set(global_names)
         self.lines: dict[str, set[int]] = {}
         files = []
         for sd in subdirs:
@@ -116,7 +118,9 @@ class SharedStateScan:
             for node in ast.walk(fn):
                 if isinstance(node, ast.Attribute) and node.attr in self.mutable_attrs:
                     lines.add(node.lineno)
-                elif isinstance(node, ast.Name) and node.id in globs:
+                elif isinstance(node, ast.Name) and (node.id in globs or node.id in self.global_names):
+                    lines.add(node.lineno)
+                elif isinstance(node, ast.Attribute) and node.attr in self.global_names:
                     lines.add(node.lineno)
         if lines:
             self.lines[os.path.realpath(fname)] = lines
@@ -281,7 +285,7 @@ def profile_writes(repo: str, make_roots: Callable[[], dict], ops: dict[str, Cal
     write_lines: dict[str, set[int]] = {}
     func_lines: dict[tuple, set[int]] = {}
     attrs: set[str] = set()
-    state = {"roots": None, "flat": None, "dig": None, "busy": False}
+    state = {"roots": None, "flat": None, "dig": None, "busy": False, "cheap": None, "fp": None}
     stack: list = []  # [code, line]
     fname_cache: dict[str, str | None] = {}
 
@@ -302,6 +306,15 @@ def profile_writes(repo: str, make_roots: Callable[[], dict], ops: dict[str, Cal
         try:
             flat = canon.flatten(state["roots"])
             dig = canon.digest(flat)
+            if state["cheap"] is not None:
+                # process-wide containers: a cheap fingerprint per container instead of a full walk
+                fp = state["cheap"]()
+                if fp != state["fp"]:
+                    old = state["fp"] or {}
+                    names = {k for k in set(fp) | set(old) if fp.get(k) != old.get(k)}
+                    attrs.update(k.rsplit(".", 1)[-1] for k in names)
+                    state["fp"] = fp
+                    dig = (dig, "proc")   # forces the attribution below
             if dig != state["dig"]:
                 if stack:
                     code, line = stack[-1]
@@ -309,7 +322,7 @@ def profile_writes(repo: str, make_roots: Callable[[], dict], ops: dict[str, Cal
                     write_lines.setdefault(f, set()).add(line)
                     func_lines.setdefault((f, line), set()).update(l for (_s, _e, l) in code.co_lines() if l is not None and l != code.co_firstlineno)
                 attrs.update(canon.mutated_attrs(state["flat"], flat))
-                state["flat"], state["dig"] = flat, dig
+                state["flat"], state["dig"] = flat, canon.digest(flat)
         finally:
             state["busy"] = False
 
@@ -352,9 +365,10 @@ def profile_writes(repo: str, make_roots: Callable[[], dict], ops: dict[str, Cal
         for name, fn in ops.items():
             roots = make_roots()
             stack.clear()
-            state.update(roots=None, flat=None, dig=None)
+            state.update(roots=None, flat=None, dig=None, cheap=None, fp=None)
             flat = canon.flatten(roots["canon"])
-            state.update(roots=roots["canon"], flat=flat, dig=canon.digest(flat))
+            cheap = roots.get("cheap")
+            state.update(roots=roots["canon"], flat=flat, dig=canon.digest(flat), cheap=cheap, fp=cheap() if cheap else None)
             try:
                 fn(roots["arg"])
             except Exception:
